@@ -640,7 +640,7 @@ func (m *RpcServer) ControlEnvironment(cxt context.Context, req *pb.ControlEnvir
 		errGoError := env.TryTransition(environment.NewGoErrorTransition(m.state.taskman))
 		if errGoError != nil {
 			log.WithField("partition", env.Id()).Warnf("could not complete requested GO_ERROR transition, forcing move to ERROR: %s", errGoError.Error())
-			env.Sm.SetState("ERROR")
+			env.ForceError()
 		}
 	}
 
